@@ -19,8 +19,8 @@ def _slug(s):
 
 
 def _run(args):
-    name, repo, tier, seed = args
-    return H.run_harness(name, repo, tier, seed)
+    name, repo, tier, seed, vi, inner = args
+    return H.run_harness(name, repo, tier, seed, jobs=inner, variant_index=vi)
 
 
 def load_known():
@@ -84,18 +84,32 @@ def run_property(prop, repo, tier, seed, jobs, only=None, t0=None):
         sel = set(only.split(","))
         names = [n for n in names if n in sel]
     known = load_known()
+    H.KNOWN_IDS.clear()
+    H.KNOWN_IDS.update(f["id"] for f in known.get("findings", []))
     recs = []
     if names:
-        work = [(n, repo, tier, seed) for n in names]
+        work = []
+        for n in names:
+            h = H.HARNESSES[n]
+            if len(h.variants) > 1 and h.split_variants:
+                work.extend((n, repo, tier, seed, vi, 1) for vi in range(len(h.variants)))
+            else:
+                work.append((n, repo, tier, seed, None, 1))
+        inner = max(1, jobs // max(1, len(work)))
+        work = [w[:5] + (max(inner, 2) if len(work) < jobs else 1,) for w in work]
+        # heavy harnesses first
+        work.sort(key=lambda w: -H.HARNESSES[w[0]].weight)
         if jobs > 1 and len(work) > 1:
+            from concurrent.futures import ProcessPoolExecutor
             ctx = mp.get_context("fork")
-            with ctx.Pool(min(jobs, len(work))) as pool:
-                recs = pool.map(_run, work, chunksize=1)
+            with ProcessPoolExecutor(max_workers=min(jobs, len(work)), mp_context=ctx) as ex:
+                recs = list(ex.map(_run, work))
         else:
             recs = [_run(w) for w in work]
     bounded = run_bounded(prop, repo, tier, seed)
 
     obligations = 0
+    n_known_obl = 0
     discharged = 0
     bounded_obl = 0
     undecided = []
@@ -123,6 +137,12 @@ def run_property(prop, repo, tier, seed, jobs, only=None, t0=None):
                 bounded_obl += 1
             if o["status"] == "proved":
                 discharged += 1
+            elif o["status"] == "known":
+                n_known_obl += 1
+                for kid in o.get("known_ids", []):
+                    kf = [f for f in known["findings"] if f["id"] == kid]
+                    if kf:
+                        known_hits.append((kf[0], {"obligation": o["name"]}))
             elif o["status"] == "refuted":
                 key = "%s|%s" % (o["name"], json.dumps(o.get("model", {}), sort_keys=True))
                 kf = match_known(known, prop, o["name"])
@@ -195,7 +215,7 @@ def run_property(prop, repo, tier, seed, jobs, only=None, t0=None):
 
     printed = set()
     for (kf, entry) in known_hits:
-        if kf["id"] in printed:
+        if kf["id"] in printed or kf.get("property") != prop:
             continue
         printed.add(kf["id"])
         print("KNOWN-FINDING: property=%s %s" % (prop, kf["what"]))
@@ -212,7 +232,7 @@ def run_property(prop, repo, tier, seed, jobs, only=None, t0=None):
     if undecided:
         level_claim = "other"
         reasons.append("%d undecided items (see coverage.undecided)" % len(undecided))
-    if discharged != obligations:
+    if discharged + n_known_obl != obligations:
         level_claim = "other"
     from .models import TRUSTED
     trusted = sorted(set(TRUSTED_STATIC + _collect_trusted(recs)))
@@ -220,6 +240,7 @@ def run_property(prop, repo, tier, seed, jobs, only=None, t0=None):
     coverage = {
         "obligations": obligations,
         "discharged": discharged,
+        "failing_only_in_known_finding_class": n_known_obl,
         "unbounded_obligations": unb_obl,
         "shape_bounded_obligations": bounded_obl,
         "checker_cmd": "python3-vt -m pyvc.cli %s --tier %s  (VC generation from %s/nptdms/*.py by pyvc; "
